@@ -20,5 +20,12 @@ func TestC15Interp(t *testing.T) {
 	m.Assume("a frame's gas spend is measured as (gas at its first step) - contract.Gas, which over-approximates while a callee holds forwarded gas (sound: can only hide, never invent, a violation)")
 	evmx.DigestDefault = false
 	evmx.RunWorkload(m, "mem", m.N(2500, 100000), evmx.GenOpts{Focus: "mem"}, evmx.OracleC15b)
+	// enumerated: every code-length alignment x PUSH1..32 as last instruction x 0..3 data bytes present x JUMP / JUMPI
+	evmx.RunWorkload(m, "tails", evmx.TailCases, evmx.GenOpts{Focus: "tails"}, func(ex *evmx.Exec) *evmx.Obs {
+		o := evmx.OracleC15b(ex)
+		o.Classes = append(o.Classes, "truncated-push-tail:enumerated")
+		return o
+	})
 	m.Floor(300, 8)
+	m.Need("truncated-push-tail:enumerated")
 }
